@@ -168,10 +168,13 @@ class C02(common.Prop):
                 from pose_format import Pose
                 import io
                 pg.set_memo("empty")
-                p = Pose.read(bytes(ref))
-                buf = io.BytesIO()
-                p.write(buf)
-                rw = list(buf.getvalue())
+                try:
+                    p = Pose.read(bytes(ref))
+                    buf = io.BytesIO()
+                    p.write(buf)
+                    rw = list(buf.getvalue())
+                except Exception as e:          # the oracle reports it: a pose that was just read must be writable
+                    case["_rewrite_err"] = type(e).__name__
             case["_rewrite"] = rw
             # the reader direction on a content that is not the image of a written pose
             if case.get("foreign") and content["shape"][3] >= 1:
@@ -264,6 +267,8 @@ class C02(common.Prop):
         if r[1] != content:
             diff = [k for k in content if r[1].get(k) != content[k]]
             return {"what": "reference-encoded file is read to different content: %s" % diff, "kind": "read-differs", "field": diff[0]}
+        if case.get("_rewrite_err"):
+            return {"what": "re-writing the pose that was just read raises %s" % case["_rewrite_err"], "kind": "rewrite-raises"}
         if case["_rewrite"] is not None and canon_tail(case["_rewrite"], nf) != b:
             return {"what": "re-writing the pose that was just read does not reproduce the file", "kind": "rewrite"}
         if "_fcontent" in case:
